@@ -145,6 +145,9 @@ def cases(tier):
     if tier == 'thorough':
         cs += [dict(kind='value', shape=s) for s in shapes(3, False)]
     lf = 'L' if tier == 'thorough' else 'l'
+    for lit in ('x', 'nx'):
+        for side in (0, 1):
+            cs.append(dict(kind='reuse', lit=lit, side=side))
     for op in ('>=', '<=', '>', '<', '=='):
         cs.append(dict(kind='ineq', op=op, lhs='L', rhs='L'))
         cs.append(dict(kind='ineq', op=op, lhs=['add', 'L', lf], rhs=lf))
@@ -157,8 +160,40 @@ def cases(tier):
 OPTS = {'quick': dict(max_paths=60000), 'thorough': dict(max_paths=400000)}
 
 
+def body_reuse(I, case, env):
+    """operands are values: using a Term / Literal / Expr in one expression must not change what it means in the next one"""
+    xv, yv = env
+    c, k, k2, c2 = I.int('c'), I.int('k'), I.int('k2'), I.int('c2')
+    lit = PB.Literal('x', case['lit'] == 'x')
+    lv = Ite(xv, 1, 0) if case['lit'] == 'x' else Ite(xv, 0, 1)
+    t = c * lit if case['side'] == 0 else lit * c
+    yl = PB.Literal('y')
+    yval = Ite(yv, 1, 0)
+    e0 = PB.Expr() + c2 * yl + k
+    uses = [
+        ('first-use', lambda: PB.Expr() + c2 * yl + t + k, c2 * yval + c * lv + k),
+        ('second-use', lambda: PB.Expr() + t + k2, c * lv + k2),
+        ('twice-in-one', lambda: PB.Expr() + t + t, 2 * c * lv),
+        ('subtracted', lambda: PB.Expr() + k2 - t, k2 - c * lv),
+        ('term+int', lambda: t + k, c * lv + k),
+        ('expr-operand-reused', lambda: e0 + t, c2 * yval + k + c * lv),
+        ('expr-operand-reused-again', lambda: e0 + e0, 2 * (c2 * yval + k)),
+        ('expr-minus-itself-operand', lambda: (PB.Expr() + t) - e0, c * lv - c2 * yval - k),
+    ]
+    I.reached('value')
+    for label, mk, direct in uses:
+        e = mk()
+        I.prove('reused-operand:' + label, Eq(value_of(e, env), direct))
+        I.prove('reused-operand:normal-form', normal_form(e))
+    I.prove('operand-term-unchanged', And(Eq(t.c, c), t.L.s == (case['lit'] == 'x'), t.L.v == 'x'))
+    I.prove('operand-literal-unchanged', lit.s == (case['lit'] == 'x') and lit.v == 'x')
+    I.prove('operand-expr-unchanged', Eq(value_of(e0, env), c2 * yval + k))
+
+
 def body(I, case):
     env = (I.bool('xv'), I.bool('yv'))
+    if case['kind'] == 'reuse':
+        return body_reuse(I, case, env)
     if case['kind'] == 'value':
         try:
             obj, direct = build(I, case['shape'], 't', env)
